@@ -61,8 +61,12 @@ func c19Vocab(r *rand.Rand) []string {
 	return v
 }
 
+// c19FreshP is the probability (in 1/100) of a never-seen string; growth trials raise it so
+// that the tables of the interned fields grow to thousands of entries
+var c19FreshP = 20
+
 func c19Str(r *rand.Rand, vocab []string, fresh *int) string {
-	if r.IntN(5) == 0 {
+	if r.IntN(100) < c19FreshP {
 		*fresh++
 		return fmt.Sprintf("new-%d-%d", *fresh, r.Uint32())
 	}
@@ -223,6 +227,15 @@ func c19Case(c *core.Ctx, idx int) {
 	if c.Lane != "race" && nworkers > 1 {
 		nops = 8 + r.IntN(12)
 	}
+	c19FreshP = 20
+	if idx%17 == 7 {
+		// growth trial: thousands of distinct values through the same interned fields ("however the table grows afterwards")
+		nworkers, nops, c19FreshP = 1, 1100+r.IntN(400), 90
+		if c.Lane == "race" {
+			nworkers, nops = 2, 200
+		}
+		rec.Count("growth_trials", 1)
+	}
 	type res struct {
 		fail     string
 		retained []c19Retained
@@ -310,6 +323,7 @@ func c19Case(c *core.Ctx, idx int) {
 		}
 	}
 	rec.Count("retained_strings_reverified", total)
+	rec.Max("distinct_strings_through_one_instance", float64(total))
 	rec.NonTrivial(core.Hash64(name, fmt.Sprint(idx), fmt.Sprint(total)))
 	if rec.WantSample() {
 		rec.Sample(map[string]any{"config": name, "goroutines": nworkers, "ops_per_goroutine": nops, "vocabulary": len(vocab), "strings_retained_and_reverified": total})
